@@ -13,6 +13,7 @@ mod rings;
 mod matgen;
 mod c11;
 mod c12;
+mod c08;
 
 use framework::*;
 
@@ -20,6 +21,7 @@ fn check_by_id(id: &str) -> Option<Box<dyn Check>> {
     match id {
         "C11" => Some(Box::new(c11::C11)),
         "C12" => Some(Box::new(c12::C12)),
+        "C08" => Some(Box::new(c08::C08)),
         _ => None,
     }
 }
